@@ -53,6 +53,16 @@ func genUnaryCase(rt *rapid.T, prop, op string, d DT, mode string, layouts []str
 	lo, hi := valueRange(d)
 	c := &EWCase{Prop: prop, Fam: "unary", Op: op, DT: d.Name, Form: "T", Via: "pkg", Mode: mode}
 	c.A = genOpnd(rt, shape, rapid.SampledFrom(layouts).Draw(rt, "la"), lo, hi, 15, "a")
+	// (not float32 Exp: the 32-bit routine's argument reduction loses some 30 ulps at |x| = 80, which says
+	// nothing about the tensor library)
+	if d.IsFloat() && !(op == "Exp" && d.Name == "float32") && rapid.IntRange(0, 3).Draw(rt, "moderate") == 0 {
+		// magnitudes between the small integers and the extremes (saturation and overflow thresholds)
+		for i := range c.A.Codes {
+			if rapid.IntRange(0, 2).Draw(rt, "modv") == 0 {
+				c.A.Codes[i] = 4000 + int64(rapid.IntRange(0, len(moderate)-1).Draw(rt, "modk"))
+			}
+		}
+	}
 	if op == "Clamp" {
 		c.Lo = rapid.Int64Range(lo, 2).Draw(rt, "clo")
 		c.Hi = rapid.Int64Range(c.Lo, hi).Draw(rt, "chi")
